@@ -33,6 +33,17 @@ def f32(x):
     return struct.unpack('f', struct.pack('f', x))[0]
 
 
+def z30(v):
+    """value on the 2^-30 grid (coefficients are exact there; noise / observed theta are rounded, 2^-31 << tolerance)"""
+    return int(round(Fraction(v) * (1 << 30)))
+
+
+def me30(v):
+    """float -> (m, e) with v ~ m * 2^e, 30-bit mantissa"""
+    f, e = math.frexp(v)
+    return (int(round(f * (1 << 30))), e - 30)
+
+
 def _torch():
     if 'torch' not in _CACHE:
         _CACHE['torch'] = setup_torch()
@@ -156,13 +167,12 @@ class Obj:
             noise = -torch.empty_like(al).exponential_().log()
             uses_noise = self.q.sample_alpha.__name__ == 'sample_alpha_gs' and self.q.training
             Tq = frac(Timpl)
+            flat = (lambda t: (t.t() if t.dim() == 2 else t).flatten().tolist())
             z = al / Timpl
-            for a_, z_ in zip(al.flatten().tolist(), z.flatten().tolist()):
-                tab[frac(a_) / Tq] = frac(math.exp(z_))
+            tab.append((Tq, [z30(a_) for a_ in flat(al)], [me30(math.exp(z_)) for z_ in flat(z)]))
             if uses_noise:
                 zg = (al + noise) / Timpl
-                for a_, n_, z_ in zip(al.flatten().tolist(), noise.flatten().tolist(), zg.flatten().tolist()):
-                    tab[(frac(a_) + frac(n_)) / Tq] = frac(math.exp(z_))
+                tab.append((Tq, [z30(a_) + z30(n_) for a_, n_ in zip(flat(al), flat(noise))], [me30(math.exp(z_)) for z_ in flat(zg)]))
             torch.manual_seed(seed)
             self.top(self.x)
             nz = self.cols(noise) if uses_noise else []
@@ -227,7 +237,7 @@ def exec_case(spec):
         res['fails'].append(('object-construction-raised', 'EXC:%s %s' % (type(ex).__name__, str(ex)[:200]), 0))
         res['init'] = None
         return res
-    tab = {}
+    tab = []
     st = o.obs()
     T, h, g, d = spec['ctor']
     res['init'] = dict(st, gumbel=bool(g) and o.kind != 'comb' or st['name'] == 'sample_alpha_gs', disabled=st['name'] == 'sample_alpha_none')
@@ -254,7 +264,7 @@ def exec_case(spec):
             res['margins'].append((i, mop[2]))
             for key, what in oracle_forward(o.kind, before, st):
                 res['fails'].append((key, what, i))
-    res['tab'] = sorted(tab.items())
+    res['tab'] = tab
     res['final'] = st
     if o.kind == 'comb':
         res['best'] = o.q.best_layer_index()
@@ -283,9 +293,19 @@ def exec_case(spec):
 
 
 # ----------------------------------------------------------------------------- Coq literals
+def c30(cols):
+    return Raw('(cols30 %s)' % coq([[z30(v) for v in c] for c in cols]))
+
+
+def q_tab(blocks):
+    if not blocks:
+        return Raw('[]')
+    return Raw('(' + ' ++ '.join('tab_block %s %s %s' % (coq(T), coq(xs), coq(vs)) for T, xs, vs in blocks) + ')')
+
+
 def q_sampler(st):
     return Raw('(mkS %s %s %s %s %s %s %s)' % (coq(st['hard']), coq(st['gumbel']), coq(st['disabled']), coq(st['T']),
-                                               coq(st['training']), coq(st['alpha']), coq(st['theta'])))
+                                               coq(st['training']), coq(c30(st['alpha'])), coq(c30(st['theta']))))
 
 
 def q_opt(v):
@@ -300,22 +320,24 @@ def q_op(m):
     if m[0] == 'eval':
         return Raw('SEval')
     if m[0] == 'fwd':
-        return Raw('(SForward %s)' % coq(m[1]))
+        return Raw('(SForward %s)' % coq(c30(m[1])))
     if m[0] == 'opt':
-        return Raw('(SOptStep %s)' % coq(m[1]))
+        return Raw('(SOptStep %s)' % coq(c30(m[1])))
     raise ValueError(m)
 
 
 def q_obs(st):
     if st is None:
         return Raw('None')
-    return some((NAMES[st['name']], st['hard'], st['training'], st['T'], st['theta']))
+    return some((NAMES[st['name']], st['hard'], st['training'], st['T'], c30(st['theta'])))
 
 
 def trace_expr(r, keep):
     k = 'KComb' if r['spec']['kind'] == 'comb' else 'KMps'
-    return 'run_trace %s true %s %s %s %s %s %s' % (coq(keep), k, coq([(a, b) for a, b in r['tab']]), coq(TOL), coq(q_sampler(r['init'])),
-                                                    coq([q_op(m) for m in r['mops']]), coq([q_obs(s) for s in r['steps']]))
+    # closure family: the prefix is itself a case of the family, only the last transition is compared
+    skip = max(0, len(r['steps']) - 1) if r['spec'].get('fam') == 'closure' else 0
+    return 'run_trace %s true %s %s %s %s %s %s %s' % (coq(keep), k, coq(q_tab(r['tab'])), coq(TOL), coq(q_sampler(r['init'])),
+                                                       coq([q_op(m) for m in r['mops']]), coq(Nat(skip)), coq([q_obs(s) for s in r['steps'][skip:]]))
 
 
 # ----------------------------------------------------------------------------- case families
@@ -530,14 +552,13 @@ def exec_model(spec):
             after = dict(b, theta=cols(m.theta_alpha.detach()))
             for key, what in oracle_forward('layer', b, after):
                 res['fails'].append((key, '%s: %s' % (n_, what), n_))
-            tab = {}
             Timpl = m.temperature.item()
             al = m.alpha.detach()
-            for a_, z_ in zip(al.flatten().tolist(), (al / Timpl).flatten().tolist()):
-                tab[frac(a_) / frac(Timpl)] = frac(math.exp(z_))
+            flat = (lambda t: (t.t() if t.dim() == 2 else t).flatten().tolist())
+            tab = [(frac(Timpl), [z30(a_) for a_ in flat(al)], [me30(math.exp(z_)) for z_ in flat(al / Timpl)])]
             if not (b['name'] == 'sample_alpha_gs' and b['training']):
                 res['samples'].append({'q': n_, 'state': dict(b, gumbel=b['name'] == 'sample_alpha_gs', disabled=b['name'] == 'sample_alpha_none'),
-                                       'tab': sorted(tab.items()), 'theta': after['theta']})
+                                       'tab': tab, 'theta': after['theta']})
         # summary / export against argmax(alpha) of the selector each layer uses
         summ = p.summary()
         mode_argmax = not any(b['name'] == 'sample_alpha_none' for b in before.values())
@@ -657,7 +678,7 @@ def run(ctx):
         for kind, roots in (('layer', [{'kind': 'layer', 'n': 3, 'c': 1, 'ctor': (T0, False, False, False), 'alpha': A0['layer'], 'mode': 'train'}]),
                             ('chan', [{'kind': 'chan', 'n': 3, 'c': 2, 'ctor': (T0, False, False, False), 'alpha': A0['chan'], 'mode': 'train'}]),
                             ('comb', [{'kind': 'comb', 'n': 3, 'c': 1, 'ctor': (T0, False, g, False), 'alpha': A0['comb'], 'mode': 'train'} for g in (False, True)])):
-            md = maxdepth
+            md = maxdepth + 2 if kind == 'comb' else maxdepth
             rs, nstates, closed, depth = bfs(ctx, pool, kind, roots, md)
             results += rs
             closure[kind] = {'abstract_states': nstates, 'transitions_executed': len(rs), 'closed': closed, 'depth': depth}
@@ -697,7 +718,7 @@ def run(ctx):
             exprs = [trace_expr(r, keep) for r in todo]
             vals = ctx.coq_eval_sharded('traces', ['Plinio.Model.Sampler'], '', exprs, shard=250)
             for r, (bad, sel) in zip(todo, vals):
-                ctx.corr += len(r['steps'])
+                ctx.corr += 1 if r['spec'].get('fam') == 'closure' and r['steps'] else len(r['steps'])
                 margins = dict(r['margins'])
                 realbad = []
                 for b in bad:
@@ -717,7 +738,7 @@ def run(ctx):
             sexprs, smeta = [], []
             for r in mres:
                 for s in r['samples']:
-                    sexprs.append('run_sample true KMps %s %s %s [] %s' % (coq([(a, b) for a, b in s['tab']]), coq(TOL), coq(q_sampler(s['state'])), coq(s['theta'])))
+                    sexprs.append('run_sample true KMps %s %s %s [] %s' % (coq(q_tab(s['tab'])), coq(TOL), coq(q_sampler(s['state'])), coq(c30(s['theta']))))
                     smeta.append((r['spec'], s['q']))
             svals = ctx.coq_eval_sharded('msamples', ['Plinio.Model.Sampler'], '', sexprs, shard=250) if sexprs else []
             for (sp, qn), (ok, am) in zip(smeta, svals):
@@ -729,7 +750,7 @@ def run(ctx):
                 for rec in r['sel']:
                     for role in ('in', 'out', 'w'):
                         if role in rec:
-                            selx.append('run_selected %s' % coq(rec[role]['alpha']))
+                            selx.append('run_selected %s' % coq(c30(rec[role]['alpha'])))
                             selm.append((r['spec'], rec['layer'], role, rec[role]))
             selv = ctx.coq_eval_sharded('selected', ['Plinio.Model.Sampler'], '', selx, shard=400) if selx else []
             for (sp, ln, role, rec), sv in zip(selm, selv):
